@@ -18,7 +18,7 @@ from props import c04
 from props.c04 import dense_json, ref_embed, kind_of, to_np, rand_unitary
 
 PROP = "C05"
-LEAN_FILES = ["QibProofs/Properties/C05.lean", "QibProofs/Properties/C05Net.lean"]
+LEAN_FILES = ["QibProofs/Properties/C05.lean", "QibProofs/Properties/C05Net.lean", "QibProofs/Properties/C05Total.lean"]
 GEN = ()
 DRIVER = "drv_circuit"
 LEVEL_TEXT = ("Lean 4 theorems about the executable models of all four views. Matrix (C05.lean): the loop of Circuit.as_matrix returns "
@@ -29,7 +29,7 @@ LEVEL_TEXT = ("Lean 4 theorems about the executable models of all four views. Ma
               "argsort re-transposition, assertions) and `tnRun` mirrors TensorNetworkSimulator.run; for every circuit the network is consistent "
               "with 2n open axes (the in-loop assertion can never fire), its denotation is the circuit matrix (C05_circuitNet_full, by induction "
               "over the gate list from C06/C08/C04), single-shot contraction returns it, the tensor-network simulator returns column |0..0> and "
-              "agrees with the statevector simulator. Tied by builder histories with interleaved in-place mutations compared after every call, "
+              "agrees with the statevector simulator; TOTALITY (C05Total.lean): on every valid circuit (gate classes of C06 except the four two-qubit wraps, well placed particles, equal data references carrying equal data, admissible set orders) as_tensornet and the tensor-network simulator return - neither the open-axes assertion, nor merge's internal assert, nor the data-clash ValueError nor the in-loop consistency assertion can fire. Tied by builder histories with interleaved in-place mutations compared after every call, "
               "and by exact structural + numeric comparison of networks and simulator outputs on random circuits.")
 ASSUMPTIONS = ["np.einsum accepts at most 52 distinct index labels: single-shot contraction of a circuit network with more bonds raises IndexError "
                "inside NumPy; such circuits are outside the view comparison (resource limit, counted in the evidence distribution)",
@@ -856,6 +856,11 @@ def _net_fixed_cases():
                            {"gate": Ry(0.4), "particles": [[2, 0]]}, {"gate": {"kind": "single", "cls": "TGate", "args": []}, "particles": [[0, 0]]}])
     yield dict(two, gates=[mea([[2, 1]]), {"gate": Ry(1.1), "particles": [[0, 1]]}, {"gate": cn([0], Ry(-0.6)), "particles": [[2, 0], [0, 1]]}])
     yield dict(two, order=[0, 2], gates=[{"gate": Ry(1.1), "particles": [[0, 1]]}, bar([[2, 1], [0, 0]]), {"gate": cn([0], Ry(-0.6)), "particles": [[2, 0], [0, 1]]}])
+    # phase-factor gates with the same angle on different numbers of wires in one circuit (their per-wire data differ: exp(i phi / n))
+    ph = lambda phi, m: {"kind": "phase", "phi": phi, "m": m}
+    yield dict(base, gates=[{"gate": H, "particles": [[0, 0]]}, {"gate": ph(0.6, 1), "particles": [[0, 1]]}, {"gate": cn([1], X), "particles": [[0, 0], [0, 2]]},
+                            {"gate": ph(0.6, 2), "particles": [[0, 0], [0, 1]]}, {"gate": Ry(0.3), "particles": [[0, 2]]}])
+    yield dict(base, gates=[{"gate": ph(-1.25, 2), "particles": [[0, 2], [0, 0]]}, {"gate": ph(-1.25, 1), "particles": [[0, 1]]}, {"gate": ph(-1.25, 1), "particles": [[0, 0]]}])
     # two rotation gates whose vectors differ beyond the printed digits of numpy's str(): distinct arrays must get distinct data references
     rot = lambda v: {"kind": "single", "cls": "RotationGate", "args": [v]}
     yield dict(base, gates=[{"gate": rot([0.1, 0.2, 0.3]), "particles": [[0, 1]]}, {"gate": rot([0.1, 0.2, 0.3 + 1e-13]), "particles": [[0, 1]]}])
